@@ -180,14 +180,96 @@ pub fn day_offset(days: f64, unit_per_day: i128) -> Offset {
 
 const EXTRA: i32 = 8; // guard bits: the admissible set is enlarged by a relative 2^-60 at most
 
-fn classify_huge(mag_lo: i32, mag_hi: i32, lim: i128) -> Option<Expect> {
-    // 2^mag_lo <= |real result| < 2^mag_hi
+/// 256-bit unsigned, just enough for the comparisons at the overflow threshold of a double.
+#[derive(Clone, Copy, PartialEq, Eq, Debug)]
+struct U256 {
+    hi: u128,
+    lo: u128,
+}
+
+impl U256 {
+    fn from(x: u128) -> U256 {
+        U256 { hi: 0, lo: x }
+    }
+    fn mul_u64(self, k: u64) -> U256 {
+        let k = k as u128;
+        let (l0, l1) = (self.lo & ((1u128 << 64) - 1), self.lo >> 64);
+        let p0 = l0 * k;
+        let p1 = l1 * k + (p0 >> 64);
+        let lo = (p0 & ((1u128 << 64) - 1)) | (p1 << 64);
+        let hi = self.hi * k + (p1 >> 64);
+        U256 { hi, lo }
+    }
+    fn shl(self, n: u32) -> Option<U256> {
+        if n == 0 {
+            return Some(self);
+        }
+        if n >= 256 {
+            return if self.hi == 0 && self.lo == 0 { Some(self) } else { None };
+        }
+        if n >= 128 {
+            if self.hi != 0 || (n > 128 && self.lo >> (256 - n) != 0) {
+                return None;
+            }
+            return Some(U256 { hi: self.lo << (n - 128), lo: 0 });
+        }
+        if self.hi >> (128 - n) != 0 {
+            return None;
+        }
+        Some(U256 { hi: (self.hi << n) | (self.lo >> (128 - n)), lo: self.lo << n })
+    }
+    fn lt(self, o: U256) -> bool {
+        (self.hi, self.lo) < (o.hi, o.lo)
+    }
+}
+
+/// Position of the real magnitude  num * 2^sh / den  (num, den > 0) relative to the threshold
+/// T = 2^1024 - 2^970 from which a correctly rounded double becomes infinite, with the statement's
+/// relative tolerance (2^-52, taken as 2^-51 to stay on the safe side):
+/// -1 = every admissible computed value is finite, +1 = every one is infinite, 0 = both occur.
+fn overflow_side(num: u128, sh: i32, den: u128) -> i32 {
+    // num * 2^sh * (2^51 +- 1)   vs   den * (2^54 - 1) * 2^(970 + 51)
+    let t = U256::from(den).mul_u64((1u64 << 54) - 1);
+    let cmp = |factor: u64| -> std::cmp::Ordering {
+        // compares num * factor * 2^(sh - 1021) with t
+        let l = U256::from(num).mul_u64(factor);
+        let d = sh - 1021;
+        let (a, b) = if d >= 0 { (l.shl(d as u32), Some(t)) } else { (Some(l), t.shl((-d) as u32)) };
+        match (a, b) {
+            (None, _) => std::cmp::Ordering::Greater, // left side does not even fit: far above
+            (_, None) => std::cmp::Ordering::Less,
+            (Some(a), Some(b)) => {
+                if a.lt(b) {
+                    std::cmp::Ordering::Less
+                } else if a == b {
+                    std::cmp::Ordering::Equal
+                } else {
+                    std::cmp::Ordering::Greater
+                }
+            }
+        }
+    };
+    if cmp((1u64 << 51) + 1) == std::cmp::Ordering::Less {
+        -1
+    } else if cmp((1u64 << 51) - 1) != std::cmp::Ordering::Less {
+        1
+    } else {
+        0
+    }
+}
+
+fn classify_huge(mag_lo: i32, mag_hi: i32, lim: i128, num: u128, sh: i32, den: u128) -> Option<Expect> {
+    // 2^mag_lo <= |real result| < 2^mag_hi (coarse pre-filter), exact position by overflow_side
     let _ = lim;
     if mag_lo >= 1025 {
         return Some(Expect { ok: None, errs: vec![ErrKind::NumericOverflow], exact: false, class: "real-result-beyond-double-range" });
     }
     if mag_hi >= 1022 {
-        return Some(Expect { ok: None, errs: vec![ErrKind::NumericOverflow, ErrKind::Range], exact: false, class: "real-result-near-double-maximum" });
+        return Some(match overflow_side(num, sh, den) {
+            1 => Expect { ok: None, errs: vec![ErrKind::NumericOverflow], exact: false, class: "real-result-beyond-double-range" },
+            -1 => Expect { ok: None, errs: vec![ErrKind::Range], exact: false, class: "result-out-of-range" },
+            _ => Expect { ok: None, errs: vec![ErrKind::NumericOverflow, ErrKind::Range], exact: false, class: "real-result-near-double-maximum" },
+        });
     }
     None
 }
@@ -221,7 +303,7 @@ pub fn mul_expect(x: i128, k: f64, lim: i128) -> Expect {
     let n = x * m as i128; // |x| < 2^64, m < 2^53
     let n = if neg { -n } else { n };
     let mag_hi = bits(n) + e;
-    if let Some(ex) = classify_huge(mag_hi - 1, mag_hi, lim) {
+    if let Some(ex) = classify_huge(mag_hi - 1, mag_hi, lim, n.unsigned_abs(), e, 1) {
         return ex;
     }
     // exact integer multiplier with |x*k| < 2^53: exactly x*k
@@ -267,7 +349,7 @@ pub fn div_expect(x: i128, k: f64, lim: i128) -> Expect {
         // log2|Q| in [bits(ax)-1+s-53, bits(ax)+s-52)
         let mag_lo = bits(ax) - 1 + s - 53;
         let mag_hi = bits(ax) + s - 52;
-        if let Some(ex) = classify_huge(mag_lo, mag_hi, lim) {
+        if let Some(ex) = classify_huge(mag_lo, mag_hi, lim, ax as u128, s, m as u128) {
             return ex;
         }
         if bits(ax) + s > 122 {
@@ -333,6 +415,25 @@ mod tests {
             let y = (m as f64) * (2.0f64).powi(e.max(-1000)) * if e < -1000 { (2.0f64).powi(e + 1000) } else { 1.0 };
             assert_eq!(if neg { -y } else { y }, x);
         }
+    }
+    #[test]
+    fn overflow_threshold() {
+        // 1 / 2^-1023 = 2^1023: finite (half the maximum) -> only a range error is right
+        assert_eq!(div_expect(1, f64::MIN_POSITIVE / 2.0, 1 << 62).errs, vec![ErrKind::Range]);
+        // 3 / 2e-308 = 1.5e308 < MAX: finite
+        assert_eq!(div_expect(3, 2e-308, 1 << 62).errs, vec![ErrKind::Range]);
+        // 4 / 2^-1023 = 2^1025: infinite
+        assert_eq!(div_expect(4, f64::MIN_POSITIVE / 2.0, 1 << 62).errs, vec![ErrKind::NumericOverflow]);
+        // x * (MAX / x) sits at the threshold: either
+        let x = 1_000_000i128;
+        assert_eq!(mul_expect(x, f64::MAX / x as f64, 1 << 62).errs.len(), 2);
+        // clearly finite / clearly infinite products
+        assert_eq!(mul_expect(x, f64::MAX / x as f64 / 2.0, 1 << 62).errs, vec![ErrKind::Range]);
+        assert_eq!(mul_expect(3, f64::MAX / 2.0, 1 << 62).errs, vec![ErrKind::NumericOverflow]);
+        // 1 * MAX is exact, but within the 2^-52 tolerance of the threshold: either kind
+        assert_eq!(mul_expect(1, f64::MAX, 1 << 62).errs.len(), 2);
+        assert_eq!(mul_expect(1, f64::MAX / 2.0, 1 << 62).errs, vec![ErrKind::Range]);
+        assert_eq!(mul_expect(2, f64::MAX, 1 << 62).errs, vec![ErrKind::NumericOverflow]);
     }
     #[test]
     fn offsets() {
